@@ -49,6 +49,26 @@ def rule_wrapperid(ctx):
     yield ob(R, g, "segment.nce:default[marginal]", okd and dv is False, "nce defaults to marginal=False (the documented NCE), vmeasure forces True")
 
 
+def fold_exact(ctx, R):
+    """The canonical form of a label is exactly str(label).lower() (or the label itself when case-sensitive): any
+    further normalisation (strip, replace, truncation) merges labels that a renaming keeps distinct."""
+    f = ctx.program.func("util.index_labels", R)
+    s = ctx.S.get(f.qual)
+    need(len(s.returns) == 1 and s.returns[0].term.op == "tuple", R, "index_labels: (indices, mapping) return expected")
+    idx = s.returns[0].term.a[0]
+    folds = [x for x in tm.walk(idx) if x.op == "comp" and any(z.op == "param" and z.a[0] == "labels" for z in x.a[2])]
+    # the comprehension(s) that rewrite the labels: element must be .lower(str(each(labels)))
+    rew = [x for x in folds if not (x.a[1].op == "sub")]
+    good = bool(rew)
+    shown = []
+    for x in rew:
+        e = x.a[1]
+        ok = e.op == "call" and call_name(e) == ".lower" and len(e.a[1]) == 1 and e.a[1][0].op == "call" and call_name(e.a[1][0]) == "builtins.str" and e.a[1][0].a[1][0].op == "iter"
+        shown.append(tm.show(e, 4))
+        good = good and ok
+    yield ob(R, f, "util.index_labels:fold-exact", good, "case-insensitive canonical form is exactly str(label).lower()" if good else "labels are canonicalised by %s: more than case folding, so distinct labels can be merged" % "; ".join(shown))
+
+
 def rule_casefold(ctx):
     R = "C16.CASEFOLD"
     f = ctx.program.func("util.index_labels", R)
@@ -62,6 +82,7 @@ def rule_casefold(ctx):
         if c.method == "lower" and any(cc.op == "param" and cc.a[0] == "case_sensitive" and not p for cc, p in facts(c.pc)):
             lowered = True
     yield ob(R, f, "util.index_labels:lower", lowered, "labels are lower-cased when case_sensitive is False")
+    yield from fold_exact(ctx, R)
     # indices are assigned per distinct (folded) label and the same mapping is applied to every label
     need(len(s.returns) == 1 and s.returns[0].term.op == "tuple", R, "index_labels: (indices, mapping) return expected")
     idx = s.returns[0].term.a[0]
